@@ -127,12 +127,14 @@ async fn test_task(pre: Vec<(R, Cond)>, script: Vec<TOp>, log: Log, abort: Rc<st
 
 async fn source(s: usize, vals: Vec<(u8, bool)>, log: Log) {
     for (i, (v, sync)) in vals.into_iter().enumerate() {
+        // the trigger future is built before the scheduling point and first polled after
+        // it: a trigger takes place when it runs, not when its future value is made
+        let fut = if sync { None } else { Some(trigger(v)) };
         yield_now().await;
         log.borrow_mut().push(Ev::Pre(s, i, v, sync));
-        if sync {
-            trigger_noop(v);
-        } else {
-            trigger(v).await;
+        match fut {
+            None => trigger_noop(v),
+            Some(f) => f.await,
         }
         log.borrow_mut().push(Ev::Post(s, i));
     }
